@@ -160,7 +160,9 @@ def families(ctx, reps, do_model=True):
     for name in ("minimize-around", "minimize-balanced"):
         for _ in range(reps):
             n = rng.choice([3, 4, 5, 6, 8, 11, 16, 24])
-            pool = rng.choice([ATOMS, [b"{", b"}", b"(", b")", b"x", b"y"], [b"f(a){", b"b;", b"};", b"x;", b"[1]=", b"2;"]])
+            pool = rng.choice([ATOMS, [b"{", b"}", b"(", b")", b"x", b"y"], [b"f(a){", b"b;", b"};", b"x;", b"[1]=", b"2;"],
+                               # atoms that are not valid UTF-8 on their own (latin-1 text, a multi-byte character cut by --char)
+                               [b"{\n", b"}\n", b"\xe9\n", b"K\xff\n", b"\xc3", b"\xa9", b"x\n"]])
             parts = [rng.choice(pool) for _ in range(n)]
             # minimize-around also on testcases with non-reducible parts between the atoms (as --js / --attrs produce)
             red = [rng.random() < 0.75 for _ in range(n)] if (name == "minimize-around" and rng.random() < 0.4) else [True] * n
@@ -245,7 +247,8 @@ def move_runs(ctx, reps):
                lambda c: (lambda i: i >= 0 and c[:i].count(b"{") > c[:i].count(b"}"))(c.find(need)),
                # well-formed nesting, the atom inside a block, and a line that is only needed when the atom is inside
                scoped_oracle]
-        for cfg in (dict(move=True), dict(move=True, rep="always")):
+        # the third setting adds a time limit that never expires (one hour on a clock that stands still): same fixpoint
+        for cfg in (dict(move=True), dict(move=True, rep="always"), dict(move=True, stop_after=3600)):
             for fn in fns:
                 tc = strat.testcase_from_fields("line", f)
                 table = {}
@@ -254,7 +257,8 @@ def move_runs(ctx, reps):
                     table[c] = fn(c)
                     return table[c]
 
-                run = strat.run_real("minimize-balanced", cfg, tc, dec, max_tests=3000, watchdog=5.0)
+                run = strat.run_real("minimize-balanced", cfg, tc, dec, max_tests=3000, watchdog=5.0,
+                                     clock_times=[1000.0] if "stop_after" in cfg else None)
                 case = dict(strategy="minimize-balanced", cfg=cfg, parts=enc_list(parts), label="move",
                             verdicts="".join("1" if v else "0" for v in run.verdicts[:200]))
                 if run.error and ("test-limit" in run.error or "hang" in run.error):
